@@ -12,6 +12,7 @@ import (
 	"context"
 	"fmt"
 	"os"
+	"runtime"
 	"sort"
 	"strings"
 	"sync"
@@ -36,10 +37,11 @@ const (
 	pLate                  // answered after the caller's timeout
 	pCancel                // the caller's context is cancelled while waiting
 	pPreCancel             // the context is already cancelled when the request is sent
+	pNotResp               // answered with a message that decodes but is not a response (a request body)
 	nPlans
 )
 
-var planNames = []string{"answer", "fault", "wrongtype", "dup", "drop", "late", "cancel", "precancel"}
+var planNames = []string{"answer", "fault", "wrongtype", "dup", "drop", "late", "cancel", "precancel", "notresponse"}
 
 type caller struct {
 	k       int
@@ -376,6 +378,9 @@ func (e *env) scenario1(seed uint64, idx int) {
 			send(id, &ua.ServiceFault{ResponseHeader: hdr(id, serial, ua.StatusBadNodeIDUnknown)})
 		case pWrongType:
 			send(id, &ua.BrowseResponse{ResponseHeader: hdr(id, serial, ua.StatusOK)})
+		case pNotResp:
+			send(id, &ua.ReadRequest{RequestHeader: &ua.RequestHeader{AuthenticationToken: ua.NewTwoByteNodeID(0), Timestamp: serialTime(serial), AdditionalHeader: ua.NewExtensionObject(nil)},
+				NodesToRead: []*ua.ReadValueID{{NodeID: ua.NewNumericNodeID(0, 1), AttributeID: ua.AttributeIDValue, DataEncoding: &ua.QualifiedName{}}}})
 		case pDup:
 			send(id, readResp(id, c.marker))
 			send(id, readResp(id, c.marker))
@@ -505,6 +510,12 @@ func (e *env) scenario1(seed uint64, idx int) {
 		if c.handlerRan && c.gotType != "*ua.ReadResponse" && c.gotType != "*ua.ServiceFault" && c.err == nil {
 			r.Fail(caseName, "", fmt.Sprintf("caller %d got a %s for a ReadRequest and no error", c.k, c.gotType))
 		}
+		if c.err == nil && !c.handlerRan && !dupExpected[c.k] {
+			r.Fail(caseName, "", fmt.Sprintf("caller %d (plan %s) returned without error although its handler was never given a response", c.k, planNames[c.plan]))
+		}
+		if c.plan == pNotResp && c.err == nil {
+			r.Fail(caseName, "", fmt.Sprintf("caller %d was answered with a message that is not a response and got no error", c.k))
+		}
 		if c.handlerRan && c.gotType == "*ua.ServiceFault" && c.err == nil {
 			r.Fail(caseName, "", fmt.Sprintf("caller %d got a ServiceFault and no error", c.k))
 		}
@@ -565,23 +576,42 @@ func (e *env) scenario1(seed uint64, idx int) {
 		}
 	}
 	r.TracesValidated++
-	// who got what
-	var got []string
-	for _, c := range callers {
-		if c.handlerRan && c.gotSerial >= 0 {
-			got = append(got, fmt.Sprintf("%d:%d:%d", c.k, reqIDOf(evs, goidToCaller, c.k), c.gotSerial))
+	// who got what: every caller that took a message off its channel (wait.msg), with the request id it
+	// registered and — where the handler was given a response carrying one — the arrival number
+	tookMsg := map[int]bool{}
+	for _, ev := range evs {
+		if ev.Name == "wait.msg" {
+			if k, ok := goidToCaller[ev.G]; ok {
+				tookMsg[k] = true
+			}
 		}
 	}
 	model := e.d.Ask("summary")
 	f := strings.Fields(model)
-	mdl := strings.Split(strings.TrimPrefix(f[0], "delivered="), ",")
-	if len(mdl) == 1 && mdl[0] == "-" {
-		mdl = nil
+	mdl := map[int][2]int64{}
+	if d := strings.TrimPrefix(f[0], "delivered="); d != "-" {
+		for _, x := range strings.Split(d, ",") {
+			var k int
+			var id, ser int64
+			fmt.Sscanf(x, "%d:%d:%d", &k, &id, &ser)
+			mdl[k] = [2]int64{id, ser}
+		}
 	}
-	sort.Strings(mdl)
-	sort.Strings(got)
-	if strings.Join(mdl, ",") != strings.Join(got, ",") {
-		r.Disagree(caseName+" summary", strings.Join(mdl, ","), strings.Join(got, ","))
+	for _, c := range callers {
+		m, inModel := mdl[c.k]
+		if inModel != tookMsg[c.k] {
+			r.Disagree(fmt.Sprintf("%s caller %d took a message", caseName, c.k), fmt.Sprint(inModel), fmt.Sprint(tookMsg[c.k]))
+			continue
+		}
+		if !inModel {
+			continue
+		}
+		if own := int64(reqIDOf(evs, goidToCaller, c.k)); m[0] != own {
+			r.Disagree(fmt.Sprintf("%s caller %d request id", caseName, c.k), fmt.Sprint(m[0]), fmt.Sprint(own))
+		}
+		if c.handlerRan && c.gotSerial >= 0 && m[1] != c.gotSerial {
+			r.Disagree(fmt.Sprintf("%s caller %d arrival number", caseName, c.k), fmt.Sprint(m[1]), fmt.Sprint(c.gotSerial))
+		}
 	}
 	if len(f) >= 3 && f[2] != "full=0" {
 		r.Disagree(caseName+" summary", f[2], "full=0")
@@ -725,6 +755,153 @@ func buildLabels(evs []h.SendEv, g2c map[int64]int, seed uint32, callers []*call
 	return out, ""
 }
 
+// forcedLate: the dispatcher has popped the handler of caller A and is about to hand the response over when A
+// times out and returns; caller B then registers and waits. The late hand-over must not reach B.
+// (one P only, so that anything the library recycles per P would be handed to B)
+func (e *env) forcedLate() {
+	name := "forced-late-handover"
+	r := e.r
+	old := runtime.GOMAXPROCS(1)
+	defer runtime.GOMAXPROCS(old)
+	cli, srv, cleanup, err := h.SendLoopback()
+	if err != nil {
+		r.InfraError = "loopback: " + err.Error()
+		return
+	}
+	defer cleanup()
+	errch := make(chan error, 64)
+	sc, err := uasc.VerifOpenChannel(cli, h.NoneConfig(40, 50*time.Millisecond), false, 7, 3, 900, nil, nil, errch)
+	if err != nil {
+		r.InfraError = "VerifOpenChannel: " + err.Error()
+		return
+	}
+	ctl := h.NewSendCtl()
+	uasc.VerifSetHook(ctl.Hook)
+	defer func() { uasc.VerifSetHook(nil); ctl.ReleaseAll() }()
+	sc.VerifStartDispatcher()
+	reqs := make(chan peerReq, 16)
+	go func() {
+		for {
+			c, err := h.PeerRead(srv)
+			if err != nil {
+				return
+			}
+			if _, svc, err := ua.DecodeService(c.Body); err == nil {
+				if rr, ok := svc.(*ua.ReadRequest); ok && len(rr.NodesToRead) == 1 {
+					reqs <- peerReq{c.ReqID, rr.NodesToRead[0].NodeID.IntID()}
+				}
+			}
+		}
+	}()
+	var seq uint32 = 100
+	answer := func(q peerReq, serial int) {
+		h.PeerSendMSG(srv, 7, 3, &seq, q.reqID, &ua.ReadResponse{ResponseHeader: hdr(q.reqID, serial, ua.StatusOK),
+			Results: []*ua.DataValue{{EncodingMask: ua.DataValueValue, Value: ua.MustVariant(int64(q.marker))}}}, 8000)
+	}
+	type res struct {
+		err    error
+		handle uint32
+		marker int64
+		ran    bool
+	}
+	goids := map[int64]int{}
+	var gmu sync.Mutex
+	run := func(k int, timeout time.Duration) chan res {
+		out := make(chan res, 1)
+		go func() {
+			gmu.Lock()
+			goids[h.GoID()] = k
+			gmu.Unlock()
+			var x res
+			x.marker = -1
+			x.err = sc.SendRequestWithTimeout(context.Background(), readReq(k), nil, timeout, func(v ua.Response) error {
+				x.ran = true
+				if rr, ok := v.(*ua.ReadResponse); ok {
+					x.handle = rr.ResponseHeader.RequestHandle
+					if len(rr.Results) == 1 {
+						x.marker = rr.Results[0].Value.Int()
+					}
+				}
+				return nil
+			})
+			ctl.Hook("harness.return", k)
+			out <- x
+		}()
+		return out
+	}
+	hold := ctl.BlockAt(func(ev *h.SendEv) bool { return ev.Name == "dispatch.afterPop" && ev.Bool(1) })
+	ra := run(0, 30*time.Millisecond)
+	var qa peerReq
+	select {
+	case qa = <-reqs:
+	case <-time.After(20 * time.Second):
+		r.InfraError = name + ": peer did not receive request A"
+		return
+	}
+	answer(qa, 0)
+	if hold.WaitReached(20*time.Second) == nil {
+		r.InfraError = name + ": dispatcher did not pop A's handler (A timed out first: machine slow)"
+		return
+	}
+	var xa res
+	select {
+	case xa = <-ra: // timer: A returns without its response
+	case <-time.After(30 * time.Second):
+		r.Fail(name, "", "caller A (timeout 30 ms) did not return")
+		return
+	}
+	rb := run(1, 10*time.Second)
+	var qb peerReq
+	select {
+	case qb = <-reqs:
+	case <-time.After(20 * time.Second):
+		r.InfraError = name + ": peer did not receive request B"
+		return
+	}
+	hold.Release() // the dispatcher now hands A's response over
+	ctl.WaitEvent(20*time.Second, func(ev *h.SendEv) bool { return ev.Name == "dispatch.afterWait" && ev.U32(0) == qa.reqID })
+	answer(qb, 1)
+	var xb res
+	select {
+	case xb = <-rb:
+	case <-time.After(30 * time.Second):
+		r.Fail(name, "", "caller B did not return")
+		return
+	}
+	evs := ctl.Events()
+	uasc.VerifSetHook(nil)
+	r.Hit("scenario:forced-late-handover")
+	// oracle
+	if xa.err == nil && xa.ran && xa.handle != qa.reqID {
+		r.Fail(name, "", fmt.Sprintf("caller A (request id %d) got the response to request id %d", qa.reqID, xa.handle))
+	}
+	if xb.err != nil || !xb.ran {
+		r.Fail(name, "", fmt.Sprintf("caller B did not get its response: err=%v", xb.err))
+	} else if xb.handle != qb.reqID || xb.marker != int64(qb.marker) {
+		r.Fail(name, "", fmt.Sprintf("caller B (request id %d) was handed the response to request id %d (the late response to A, whose call had already returned)", qb.reqID, xb.handle))
+	}
+	// model
+	callers := []*caller{{k: 0}, {k: 1}}
+	labels, note := buildLabels(evs, goids, 40, callers)
+	if note != "" {
+		r.Disagree(name, "trace cannot be linearised: "+note, "events recorded")
+		return
+	}
+	r.Count(name+" "+strings.Join(labels, ";"), true)
+	r.Sample(name + ": " + strings.Join(labels, "; "))
+	if e.d == nil {
+		return
+	}
+	e.d.Ask("reset 40")
+	for i, l := range labels {
+		if a := e.d.Ask("lts " + l); a != "ok" {
+			r.Disagree(name, fmt.Sprintf("%s at step %d `%s` of %s", a, i, l, strings.Join(labels, ";")), "step taken by the implementation")
+			return
+		}
+	}
+	r.TracesValidated++
+}
+
 func (e *env) corpusAndTypes() {
 	// safeAssign on pairs of response types: real function vs model
 	resp := []ua.Response{&ua.ReadResponse{}, &ua.BrowseResponse{}, &ua.ServiceFault{}, &ua.WriteResponse{}, &ua.CreateSessionResponse{}}
@@ -812,10 +989,13 @@ func main() {
 		var idx int
 		if _, err := fmt.Sscanf(o.Replay, "scenario %d %d", &seed, &idx); err == nil {
 			e.scenario(seed, idx)
+		} else if strings.HasPrefix(o.Replay, "forced-late") {
+			e.forcedLate()
 		}
 		r.Write(o.Out)
 		return
 	}
+	e.forcedLate()
 	n := o.N(60, 1200)
 	t0 := time.Now()
 	for i := 0; i < n && r.InfraError == ""; i++ {
@@ -826,7 +1006,7 @@ func main() {
 		}
 	}
 	for _, b := range []string{"label:setctr", "label:nextid", "label:register", "label:pop", "label:deliver", "label:recv", "label:abandon",
-		"outcome:ok", "outcome:timeout", "outcome:cancelled", "outcome:wrong-type-error", "outcome:refused-duplicate", "peer:unsolicited", "peer:late-response"} {
+		"outcome:ok", "outcome:timeout", "outcome:cancelled", "outcome:wrong-type-error", "outcome:refused-duplicate", "peer:unsolicited", "peer:late-response", "plan:notresponse", "scenario:forced-late-handover"} {
 		if r.Distribution[b] == 0 {
 			r.Unreached = append(r.Unreached, b)
 		}
